@@ -48,6 +48,8 @@ def main():
     if not os.path.isabs(demo_src):
         demo_src = os.path.join(d, os.path.basename(demo_src))
     demo_dst, cmd = m.group(2), g.group(1).strip()
+    if demo_dst.endswith("/") or os.path.isdir(os.path.join(wt, demo_dst)):
+        demo_dst = os.path.join(demo_dst, os.path.basename(demo_src))
     cmd = re.sub(r"\s+-v\b", "", cmd)
     sh("git checkout -- . && git clean -fdq", wt)
     patch = os.path.join(d, "patch.diff")
